@@ -351,4 +351,12 @@ def rule_conv(c, prog):
 def run(c, prog):
     rule_desc(c, prog)
     rule_conv(c, prog)
+    # equivalence of the two decodings needs each codec's own round trip: the shared clauses are re-checked under C06
+    from . import C01_alg, C01_arm, C02, C07
+    a = core.Alias(c, "C06")
+    C01_alg.run(a, prog)
+    C01_arm.run(a, prog)
+    C02.rule_twopass(a, prog)
+    C02.rule_tags(a, prog)
+    C07.run_sanitisers(a, prog)
     c.not_decided += ["equality of decoded values across the two codecs (a pair of runs); follows from C01.arm, C02.type and C06.desc only as far as those clauses reach"]
